@@ -934,14 +934,18 @@ func (t *tScreen) drawCell(x, y int) int {
 	buf := make([]byte, 0, 6)
 
 	buf = t.encodeRune(mainc, buf)
+	// A full-width rune the charset lacks is shown as '?', which is narrow.
+	// Whether a blank has to fill its second column is decided by the main
+	// rune alone, before any combining runes are appended to it.
+	pad := width > 1 && string(buf) == "?"
 	for _, r := range combc {
 		buf = t.encodeRune(r, buf)
 	}
 
 	str = string(buf)
-	if width > 1 && str == "?" {
+	if pad {
 		// No FullWidth character support
-		str = "? "
+		str += " "
 		t.cx = -1
 	}
 
